@@ -37,6 +37,32 @@ pub struct TypeM {
     pub is_enum: bool,
     pub rule: Option<String>,
     pub items: Vec<ItemM>,
+    /// how the container's serde attributes are written (CONTAINER_FORMS)
+    pub container: String,
+}
+
+/// container-level spellings: rename_all alone, sharing an attribute with other keys (before /
+/// after them), in a separate attribute (before / after another serde attribute), next to a
+/// container-level `rename` (which renames the type on the wire, never its members), and below
+/// a doc comment that mentions another rule in prose. Without a rule only the noise remains.
+pub const CONTAINER_FORMS: &[&str] = &["plain", "rule_then_key", "key_then_rule", "attr_then_rule_attr", "rule_attr_then_attr", "with_container_rename", "doc_mentions_rule"];
+
+fn container_attrs(t: &TypeM) -> String {
+    let other = "deny_unknown_fields";
+    let rule = t.rule.as_ref().map(|r| format!("rename_all = \"{}\"", r));
+    match (t.container.as_str(), rule) {
+        ("rule_then_key", Some(r)) => format!("#[serde({}, {})]\n", r, other),
+        ("key_then_rule", Some(r)) => format!("#[serde({}, {})]\n", other, r),
+        ("attr_then_rule_attr", Some(r)) => format!("#[serde({})]\n#[serde({})]\n", other, r),
+        ("rule_attr_then_attr", Some(r)) => format!("#[serde({})]\n#[serde({})]\n", r, other),
+        ("with_container_rename", Some(r)) => format!("#[serde(rename = \"wire_type_name\", {})]\n", r),
+        ("doc_mentions_rule", Some(r)) => format!("/// not #[serde(rename_all = \"SCREAMING-KEBAB-CASE\")], and no skip\n#[serde({})]\n", r),
+        (_, Some(r)) => format!("#[serde({})]\n", r),
+        ("plain", None) => String::new(),
+        ("with_container_rename", None) => "#[serde(rename = \"wire_type_name\")]\n".to_string(),
+        ("doc_mentions_rule", None) => "/// not #[serde(rename_all = \"SCREAMING-KEBAB-CASE\")], and no skip\n".to_string(),
+        (_, None) => format!("#[serde({})]\n", other),
+    }
 }
 
 pub fn rename_class(s: &str) -> &'static str {
@@ -109,9 +135,7 @@ pub fn render_type(t: &TypeM) -> String {
     } else {
         s.push_str("#[derive(Debug, Clone, Serialize, Deserialize, Validate)]\n");
     }
-    if let Some(r) = &t.rule {
-        s.push_str(&format!("#[serde(rename_all = \"{}\")]\n", r));
-    }
+    s.push_str(&container_attrs(t));
     if t.is_enum {
         s.push_str("#[allow(clippy::upper_case_acronyms)]\n");
         s.push_str(&format!("pub enum {} {{\n", t.name));
@@ -233,6 +257,9 @@ fn item_tags(t: &TypeM, it: &ItemM, mode: &str) -> Vec<String> {
     if it.ident.starts_with("r#") {
         v.push("raw_ident".into());
     }
+    if t.container != "plain" {
+        v.push(format!("container={}", t.container));
+    }
     v
 }
 
@@ -347,7 +374,7 @@ pub fn grid_types(rule: Option<&str>, is_enum: bool) -> Vec<TypeM> {
         for (i, id) in idents.iter().enumerate() {
             let mut items = vec![make_item(id, form, RENAMES[(i + fi * 5) % RENAMES.len()], if *form == "skip" { 0 } else { 1 })];
             items.push(make_item(if is_enum { "Keep" } else { "keep" }, "none", "", 1));
-            out.push(TypeM { name: format!("{}{}x{}", if is_enum { "En" } else { "St" }, fi, i), is_enum, rule: rule.map(String::from), items });
+            out.push(TypeM { name: format!("{}{}x{}", if is_enum { "En" } else { "St" }, fi, i), is_enum, rule: rule.map(String::from), items, container: CONTAINER_FORMS[(fi + i) % CONTAINER_FORMS.len()].to_string() });
         }
     }
     out
@@ -388,7 +415,8 @@ fn random_types(t: &mut Tape) -> (Vec<TypeM>, &'static str) {
             items.push(make_item(&ident, form, &ren, i));
         }
         // wire names inside one type must be distinct (serde itself rejects duplicates for structs)
-        let t0 = TypeM { name: format!("{}{}", if is_enum { "En" } else { "St" }, ti), is_enum, rule, items };
+        let container = if t.chance(1, 2) { "plain".to_string() } else { t.choose(CONTAINER_FORMS).to_string() };
+        let t0 = TypeM { name: format!("{}{}", if is_enum { "En" } else { "St" }, ti), is_enum, rule, items, container };
         let mut seen = std::collections::HashSet::new();
         let mut dedup = t0.clone();
         dedup.items.retain(|i| seen.insert(wire_name(&i.ident, is_enum, i.rename.as_deref(), t0.rule.as_deref())));
@@ -403,7 +431,7 @@ fn random_types(t: &mut Tape) -> (Vec<TypeM>, &'static str) {
 pub fn run(ctx: &Ctx) {
     let validated = serde_names::validate();
     ctx.note("oracle_fixtures_validated", json!(validated));
-    ctx.set_rule("full grid: container rename_all in {none + 8 rules} x {struct field, enum variant} x item-level attribute forms (15 for fields, 5 for variants) x 14 identifier shapes x both modes, renames drawn from a pool of 20 strings; plus random types with random identifiers and random rename strings. evaluation = one item (field/variant) whose wire name is compared; non-trivial = container rule present or item-level attribute present; distinct by (rule, kind, form, identifier, rename, mode)");
+    ctx.set_rule("full grid: container rename_all in {none + 8 rules} x {struct field, enum variant} x item-level attribute forms (15 for fields, 5 for variants) x 14 identifier shapes x both modes, the container attributes written in 7 rotating spellings (rename_all alone / before or after another key / in its own attribute before or after another one / beside a container-level rename / under a doc comment naming another rule), renames drawn from a pool of 20 strings; plus random types with random identifiers and random rename strings. evaluation = one item (field/variant) whose wire name is compared; non-trivial = container rule present or item-level attribute present; distinct by (rule, kind, form, identifier, rename, mode)");
     ctx.set_exhaustive(false);
     ctx.assume("expected names come from a port of serde_derive's case rules, validated at start-up against types compiled with the real serde_derive");
     ctx.assume("default_field_case stays at its default (snake_case = identity)");
